@@ -1981,10 +1981,13 @@ class FileBuilder:
 
         created_dirs = (
             self._build_dirs.created_dirs() + cache_file_created_dirs)
+        # This includes directories that the previous build also created. We
+        # only create a directory if it didn't exist, so it shouldn't exist
+        # afterwards either. (For one thing, restore_all() can't restore a file
+        # that we replaced with a directory.) _create_dirs recreates the
+        # previous build's directories below if possible.
         dirs_to_remove = set([os.path.normcase(dir_) for dir_ in created_dirs])
         dirs_to_remove.update(self._build_dirs.norm_cased_error_created_dirs())
-        for dir_ in self._old_cache.created_dirs():
-            dirs_to_remove.discard(os.path.normcase(dir_))
 
         for filename in self._new_cache.created_files():
             # Remove the files we built. This includes files that the previous
